@@ -89,6 +89,18 @@ func applyEdit(kind string, sdls []string, a, b, c int) {
 	case "fieldNullability":
 		sdls[a] += "type SigN {\n  a: String!\n  b: Int\n}\n"
 		sdls[b] += "type SigN {\n  a: String\n  b: Int\n}\n"
+	case "fieldListWrapper":
+		sdls[a] += "type SigL {\n  a: [String]\n  b: Int\n}\n"
+		sdls[b] += "type SigL {\n  a: String\n  b: Int\n}\n"
+	case "fieldListElemNullability":
+		sdls[a] += "type SigM {\n  a: [String!]\n}\n"
+		sdls[b] += "type SigM {\n  a: [String]\n}\n"
+	case "argListWrapper":
+		sdls[a] += "type SigO {\n  a(x: [ID!]): String\n}\n"
+		sdls[b] += "type SigO {\n  a(x: ID): String\n}\n"
+	case "inputFieldListWrapper":
+		sdls[a] += "input SigP {\n  a: [Int]!\n}\n"
+		sdls[b] += "input SigP {\n  a: Int!\n}\n"
 	case "fieldArgs":
 		sdls[a] += "type SigA {\n  a(x: Int): String\n}\n"
 		sdls[b] += "type SigA {\n  a(y: Int): String\n}\n"
@@ -129,7 +141,7 @@ func applyEdit(kind string, sdls []string, a, b, c int) {
 
 var conflictKinds = []string{"dupQueryField", "dupMutationField", "dupSubscriptionField", "kindObjectEnum", "kindScalarObject", "kindInputObject",
 	"kindInterfaceUnion", "nodeOneSide", "nodeFieldTwice", "nodeFieldTwicePartial", "partialObject", "partialObjectSubset", "partialInput",
-	"fieldType", "fieldNullability", "fieldArgs", "fieldArgType", "inputFieldType", "inputFieldDefault", "argDefault", "unionMembers", "unionMembersDisjoint"}
+	"fieldType", "fieldNullability", "fieldListWrapper", "fieldListElemNullability", "argListWrapper", "inputFieldListWrapper", "fieldArgs", "fieldArgType", "inputFieldType", "inputFieldDefault", "argDefault", "unionMembers", "unionMembersDisjoint"}
 var neutralKinds = []string{"neutralThreeWay", "neutralIdentical", "neutralDisjoint", "neutralEnumExtend"}
 
 // conflictGate maps a conflict kind to the feature class used by known-finding gates.
@@ -295,7 +307,7 @@ func genConflictCase(t *rapid.T) (*ConflictCase, *world.Model) {
 
 func TestC05(t *testing.T) {
 	rec := ev.Get("C05")
-	rec.Rule = "mergeable world (2..4 services) + 0..2 conflict edits from a catalogue of 22 (duplicate root field in Query/Mutation/Subscription, one name two kinds, Node on one side, Node field twice, partial overlap of objects/inputs, differing field type/nullability/arguments, differing union members) + 0..2 neutral edits (identical copies, disjoint split, three-way split, enum extension); every service SDL stays individually valid; all permutations of the service list are merged; non-trivial = an edit applied or >=3 services; distinct by hash(SDLs, merger)"
+	rec.Rule = "mergeable world (2..4 services) + 0..2 conflict edits from a catalogue of 26 (duplicate root field in Query/Mutation/Subscription, one name two kinds, Node on one side, Node field twice, partial overlap of objects/inputs, differing field type/nullability/arguments, differing union members) + 0..2 neutral edits (identical copies, disjoint split, three-way split, enum extension); every service SDL stays individually valid; all permutations of the service list are merged; non-trivial = an edit applied or >=3 services; distinct by hash(SDLs, merger)"
 	defer census.dump("C05")
 	rapid.Check(t, func(t *rapid.T) {
 		c, m := genConflictCase(t)
